@@ -2,6 +2,7 @@
 from lib import core, gen
 
 LEVEL = 'proof'
+BBH_FEATURES = []      # harness command families this check needs (fallback build, lib/core.py build_bbh)
 LIMITS = [0, 1, 2, 3, 4, 5, 6, 8, 11, 16, 23, 37, 64, 100, 173, 300, 1000]
 REF_BUDGET = 300000          # base steps the extracted reference is asked to run
 
